@@ -166,8 +166,26 @@ def ColArg.nameIn (c : ColArg) (d : DialectRef) (isTable norm : Bool) : NameIn :
   | .str s => ⟨s, false, d, isTable, norm⟩
   | .ident i => ⟨i.name, i.quoted, d, isTable, norm⟩
 
+/-- `column_mapping` as `add_table` receives it (`list[str]` — names without types — is not modelled) -/
+inductive ColMapping where
+  | none_
+  | dict (pairs : List (String × String))
+  | str (text : String)
+deriving Repr
+
+def pyStrip (s : String) : String := s.trimAscii.toString
+
+/-- `ensure_column_mapping`: `None -> {}`; a dict as is; `"a: int, b: text"` split on `,` and `:` with `strip()`
+    into a dict (a repeated name keeps its first position and last type) -/
+def ColMapping.pairs : ColMapping → List (String × String)
+  | .none_ => []
+  | .dict p => p
+  | .str text =>
+    ofPairs ((text.splitOn ",").map (fun x =>
+      ((pyStrip ((pyStrip x).splitOn ":")[0]!), pyStrip (((pyStrip x).splitOn ":")[1]!))))
+
 inductive FOp where
-  | addTable (d : DialectRef) (norm : Bool) (t : TableArg) (cols : List (String × String))
+  | addTable (d : DialectRef) (norm : Bool) (t : TableArg) (cols : ColMapping)
   | columnNames (d : DialectRef) (norm : Bool) (t : TableArg) (onlyVisible : Bool)
   | columnType (d : DialectRef) (norm : Bool) (t : TableArg) (col : ColArg)
   | hasColumn (d : DialectRef) (norm : Bool) (t : TableArg) (col : ColArg)
@@ -179,7 +197,7 @@ def ColArg.toIdent (c : ColArg) : Ident := (c.nameIn default false false).ident
 
 /-- the same call in the vocabulary of the flat specification -/
 def FOp.toOp : FOp → Op
-  | .addTable d norm t cols => .addTable d norm t.parts (cols.map (fun c => ((ColArg.str c.1).toIdent, c.2)))
+  | .addTable d norm t cols => .addTable d norm t.parts (cols.pairs.map (fun c => ((ColArg.str c.1).toIdent, c.2)))
   | .columnNames d norm t ov => .columnNames d norm t.parts ov
   | .columnType d norm t col => .columnType d norm t.parts col.toIdent
   | .hasColumn d norm t col => .hasColumn d norm t.parts col.toIdent
@@ -204,7 +222,7 @@ def normColsC (E : Env) (L : Layouts) (d : DialectRef) (norm : Bool) :
 def fNormOp (E : Env) (L : Layouts) (F : FSt) : FOp → (NameCache × TableCache) × NOp
   | .addTable d norm t cols =>
     let rt := tableCall E.f L.table F.tables ⟨t.parts, t.isStr, d, norm⟩
-    let rc := normColsC E L d norm F.names cols
+    let rc := normColsC E L d norm F.names cols.pairs
     ((rc.1, rt.1), .addTable rt.2 (ofPairs rc.2))
   | .columnNames d norm t ov =>
     let rt := tableCall E.f L.table F.tables ⟨t.parts, t.isStr, d, norm⟩
